@@ -290,8 +290,10 @@ func (x *Exec) storeAddr(st *State, a Addr, v Term) {
 // ---- merging
 
 type edgeState struct {
-	cond Term
-	st   *State
+	cond   Term
+	st     *State
+	blk    int
+	hasBlk bool
 }
 
 func (x *Exec) mergeStates(edges []edgeState) *State {
